@@ -34,7 +34,7 @@ def run(tier, vd):
     r2 = validate_traces("TcpTrace", pf, parallel=8, timeout=3000)
     vd.add_validation(r2)
     r2b = dict(r2)
-    r2b["viol"] = [v for v in r2["viol"] if v["rule"] in ("K2", "K3")]
+    r2b["viol"] = [v for v in r2["viol"] if v["rule"] in ("K2", "K3", "PANIC")]
     report_viols(vd, "C08", r2b, {"world": "tcp_pair", "seed": sd}, lambda v: {"rule": v["rule"], "world": "tcp_pair"}, lambda v: "tcp_pair %s %s" % (v["rule"], v["p"]))
 
     def mut(e):
